@@ -857,10 +857,17 @@ func exec(pr *hc.Proc, sql string) result { return execPatched(pr, sql, nil) }
 // patch puts the stray BREAK / CONTINUE / EXIT / RETURN statements of `my` into the parsed tree, which has the
 // same shape (every statement of `my` was written as exactly one statement)
 func patch(my []*Stmt, parsed []parser.Statement) bool {
-	if len(my) != len(parsed) {
-		return false
-	}
-	for i, s := range my {
+	j := 0
+	for _, s := range my {
+		i := j
+		if s.K == 'E' { // DECLARE CURSOR; OPEN; WHILE IN
+			i, j = j+2, j+3
+		} else {
+			j++
+		}
+		if i >= len(parsed) {
+			return false
+		}
 		switch s.K {
 		case 'B', 'K', 'Q', 'R':
 			if !s.Stray {
@@ -914,6 +921,11 @@ func patch(my []*Stmt, parsed []parser.Statement) bool {
 			if !ok || !patch(s.Body, n.Statements) {
 				return false
 			}
+		case 'E':
+			n, ok := parsed[i].(parser.WhileInCursor)
+			if !ok || !patch(s.Body, n.Statements) {
+				return false
+			}
 		case 'F':
 			n, ok := parsed[i].(parser.FunctionDeclaration)
 			if !ok || !patch(s.Body, n.Statements) {
@@ -921,7 +933,7 @@ func patch(my []*Stmt, parsed []parser.Statement) bool {
 			}
 		}
 	}
-	return true
+	return j == len(parsed)
 }
 
 // returnValOf reads the unexported Processor.returnVal (only a RETURN outside any function leaves it visible)
@@ -941,7 +953,7 @@ func execPatched(pr *hc.Proc, sql string, my []*Stmt) result {
 	pr.Stdout.Reset()
 	var r result
 	stmts, _, err := parser.Parse(sql, "", false, pr.P.Tx.Flags.AnsiQuotes)
-	if err != nil || (my != nil && !patch(my, stmts)) {
+	if err != nil || (my != nil && (len(stmts) < preludeStmts || !patch(my, stmts[preludeStmts:]))) {
 		r.flow, r.code, r.fatal = "SYNTAX", -2, true
 		return r
 	}
@@ -1166,7 +1178,7 @@ func lawShadowRandom(g *hc.Gen, o *hc.Out, pr *hc.Proc) {
 		return
 	}
 	pr.P = query.NewProcessor(pr.P.Tx)
-	r0 := exec(pr, sqlProgram(pre))
+	r0 := exec(pr, tablePrelude+sqlProgram(pre))
 	before := globalVar(pr, x)
 	blk := "IF TRUE THEN VAR " + vname(x) + " := 77; " + sqlProgram(body) + "END IF;"
 	r1 := exec(pr, blk)
@@ -1206,8 +1218,12 @@ func lawLateDecl(g *hc.Gen, o *hc.Out, pr *hc.Proc, prog []*Stmt, base result) {
 				sites = append(sites, site{&s.Els, nil})
 				walk(s.Els)
 			}
-			if s.K == 'W' || s.K == 'F' {
-				sites = append(sites, site{&s.Body, s.Params})
+			if s.K == 'W' || s.K == 'F' || s.K == 'E' {
+				ps := s.Params
+				if s.K == 'E' && s.Decl { // WHILE VAR @x IN …: @x lives in the block of the body
+					ps = []Param{{X: s.X}}
+				}
+				sites = append(sites, site{&s.Body, ps})
 				walk(s.Body)
 			}
 		}
@@ -1241,7 +1257,7 @@ func lawLateDecl(g *hc.Gen, o *hc.Out, pr *hc.Proc, prog []*Stmt, base result) {
 	sql := sqlProgram(prog)
 	*st.list = old
 	pr.P = query.NewProcessor(pr.P.Tx)
-	r := exec(pr, sql)
+	r := exec(pr, tablePrelude+sql)
 	o.Count("law:late_decl")
 	if r.line() != base.line() {
 		report(o, "late_shadow_invisible", lawCase{"late_shadow_invisible", []string{sqlProgram(prog), sql}, r.line(), base.line()})
@@ -1288,14 +1304,14 @@ func lawConcurrent(g *hc.Gen, o *hc.Out) {
 
 // blocks handed out by csvq's pool are empty and are not shared with each other or with a live scope
 // (a block released while still in use, or released twice, would show up here after the many scopes opened above)
-func lawPool(o *hc.Out, live *query.ReferenceScope) {
+func lawPool(o *hc.Out, live *query.ReferenceScope, n int, history string) {
 	seen := map[*query.SyncMap]bool{}
 	for _, b := range live.Blocks {
 		seen[b.Variables.SyncMap] = true
 	}
 	var got []query.BlockScope
 	dirty, shared := 0, 0
-	for i := 0; i < 256; i++ {
+	for i := 0; i < n; i++ {
 		b := query.GetBlockScope()
 		got = append(got, b)
 		if b.Variables.Len() != 0 || b.Functions.Len() != 0 || b.Cursors.Len() != 0 || b.TemporaryTables.Len() != 0 {
@@ -1311,7 +1327,59 @@ func lawPool(o *hc.Out, live *query.ReferenceScope) {
 	}
 	o.Count("law:pool")
 	if dirty > 0 || shared > 0 {
-		report(o, "pool_no_alias", lawCase{"pool_no_alias", nil, fmt.Sprintf("dirty=%d shared=%d", dirty, shared), "0 0"})
+		report(o, "pool_no_alias", lawCase{"pool_no_alias", []string{history}, fmt.Sprintf("of %d blocks taken from the pool after this program: dirty=%d shared=%d", n, dirty, shared), "0 0"})
+	}
+}
+
+// poolProbe: after every generated program, in the same session (so with whatever the program's scopes left in
+// csvq's pool of blocks), a recursive function six invocations deep, each with a WHILE block and an IF block that
+// re-declare the function's local: 19 scopes are live at once.  A block that the history released twice, or
+// released while in use, is now handed to two of them, and the known trace changes (or "redeclared" is raised).
+const probeSQL = `DECLARE pz FUNCTION (@n) AS BEGIN
+  IF @n < 1 THEN RETURN 0; END IF;
+  VAR @loc := (@n + 100); VAR @i := 0; VAR @acc := 0;
+  WHILE @i < 2 DO
+    @i := (@i + 1);
+    VAR @loc := @i;
+    IF TRUE THEN
+      VAR @loc := 50;
+      IF @i = 1 THEN @acc := (@acc + pz(@n - 1)); END IF;
+      @loc := (@loc + 1);
+    END IF;
+    @acc := (@acc + @loc);
+  END WHILE;
+  PRINT @loc;
+  RETURN (@acc + @n);
+END;
+PRINT pz(6);`
+
+const probeWant = "I101,I102,I103,I104,I105,I106,I39"
+
+var probeStmts []parser.Statement
+
+func poolProbe(o *hc.Out, pr *hc.Proc, history string) {
+	if probeStmts == nil {
+		st, _, err := parser.Parse(probeSQL, "", false, pr.P.Tx.Flags.AnsiQuotes)
+		if err != nil {
+			panic(err)
+		}
+		probeStmts = st
+	}
+	keep := pr.P
+	pr.P = query.NewProcessor(pr.P.Tx)
+	pr.Stdout.Reset()
+	_, err := pr.P.Execute(pr.Ctx, probeStmts)
+	var out []string
+	if txt := strings.TrimSuffix(pr.Stdout.String(), "\n"); txt != "" {
+		for _, l := range strings.Split(txt, "\n") {
+			out = append(out, canonLine(l))
+		}
+	}
+	pr.P = keep
+	o.Count("law:probe_after_history")
+	if got := joinOr(out, "-"); err != nil || got != probeWant {
+		report(o, "call_frames_independent_after_history", lawCase{"call_frames_independent_after_history",
+			[]string{history, probeSQL}, fmt.Sprintf("E%d %s", errNumber(err), got), "E0 " + probeWant})
 	}
 }
 
@@ -1370,9 +1438,6 @@ func runC15(seed int64, n int, dir string, _ []string) {
 	defer shared.Close()
 	lawConcurrent(g, o)
 	for i := 0; i < n; i++ {
-		if i%1000 == 999 {
-			lawPool(o, shared.P.ReferenceScope)
-		}
 		wild := i%5 == 4
 		pg, prog := genProgram(g, false, wild)
 		sql := sqlProgram(prog)
@@ -1384,15 +1449,18 @@ func runC15(seed int64, n int, dir string, _ []string) {
 		shared.P = query.NewProcessor(shared.P.Tx)
 		var r result
 		if wild {
-			r = execPatched(shared, sql, prog)
+			r = execPatched(shared, tablePrelude+sql, prog)
 			o.Count("wild_programs")
 		} else {
-			r = exec(shared, sql)
+			r = exec(shared, tablePrelude+sql)
 		}
 		if r.fatal {
 			report(o, "generator_syntax", lawCase{"generator_syntax", []string{sql}, r.flow, "parses"})
 			continue
 		}
+		// what the history left in the pool of blocks
+		poolProbe(o, shared, tablePrelude+sql)
+		lawPool(o, shared.P.ReferenceScope, 48, tablePrelude+sql)
 		if r.code == query.ErrorContextDone || r.code == query.ErrorContextCanceled {
 			o.Count("skipped_timeout")
 			continue
@@ -1441,7 +1509,7 @@ func runC15(seed int64, n int, dir string, _ []string) {
 		}
 
 	}
-	lawPool(o, shared.P.ReferenceScope)
+	lawPool(o, shared.P.ReferenceScope, 256, "(end of the run)")
 	if os.Getenv("VERIF_TIER") == "thorough" {
 		for i := 0; i < 5; i++ {
 			lawConcurrent(g, o)
